@@ -15,7 +15,7 @@ TECHNIQUE = 'symbolic execution of the real bound routines (Python and C via LLV
 BUDGET = {'quick': 360, 'thorough': 2400}
 SOURCES = ['src/dtaidistance/dtw.py', 'src/dtaidistance/ed.py', 'src/dtaidistance/innerdistance.py',
            'src/DTAIDistanceC/DTAIDistanceC/dd_dtw.c', 'src/DTAIDistanceC/DTAIDistanceC/dd_ed.c']
-FUNCTIONS = ['dtw.lb_keogh', 'ed.distance', 'dtw.ub_euclidean', 'dtw.distance(only_ub=True)', 'dd_dtw.c lb_keogh, lb_keogh_euclidean, ub_euclidean*',
+FUNCTIONS = ['dtw.distance(use_c=True, only_ub=True) front-end route (compiled module replaced by transcribed glue + C kernel)', 'dtw.lb_keogh', 'ed.distance', 'dtw.ub_euclidean', 'dtw.distance(only_ub=True)', 'dd_dtw.c lb_keogh, lb_keogh_euclidean, ub_euclidean*',
              'dd_ed.c euclidean_distance, _euclidean, _ndim, _ndim_euclidean', 'dd_dtw.c dtw_distance*(only_ub)']
 BOUNDS = {'quick': {'r,c': '1..3 (Euclidean: 1..4)', 'window': 'None, 1..max+1', 'ndim (upper bound)': '1..2', 'inner': 'both'},
           'thorough': {'r,c': '1..5 (Euclidean: 1..6)', 'window': 'None, 1..max+1', 'ndim (upper bound)': '1..3', 'inner': 'both'}}
@@ -144,6 +144,22 @@ def run_task(cfg):
                     if e2 is None:
                         continue
                     check(f2, smt.er_neq(e1, e2), 'C dtw_distance*(only_ub) returns the Euclidean distance', {'engine': 'c'})
+                # the same request through the Python front-end of the C engine: dtw.distance(use_c=True, only_ub=True) with the
+                # compiled module replaced by the transcribed glue + the real C kernel
+                stub = dtwh.CCStub(irmod)
+                saved = dtw.dtw_cc
+                dtw.dtw_cc = stub
+                try:
+                    for f2, e2, p2 in dtwh.py_paths(lambda: dtw.distance(mode.s1, mode.s2, only_ub=True, use_c=True, **kw), mode, f1, stats):
+                        if e2 is None:
+                            if isinstance(p2.exc, (pysym.Realised, NotImplementedError)):
+                                st['incon'] += 1
+                                continue
+                            check(f2, z3.BoolVal(True), 'distance(use_c=True, only_ub=True) raises %s' % type(p2.exc).__name__, {'engine': 'c-frontend'})
+                            continue
+                        check(f2, smt.er_neq(e1, e2), 'distance(use_c=True, only_ub=True) returns the Euclidean distance', {'engine': 'c-frontend'})
+                finally:
+                    dtw.dtw_cc = saved
     elif what == 'lb':
         w = cfg['window']
         o = {'window': w}
@@ -208,6 +224,25 @@ def replay(cex):
                 if ndim > 1:
                     kw['use_ndim'] = True
                 v = dtw.distance(a1, a2, only_ub=True, **kw)
+            elif o.get('engine') == 'c-frontend':
+                # real Python front-end; the extension module is replaced by the transcribed glue + the library compiled from the tree
+                class NativeCC:
+                    @staticmethod
+                    def distance(x, y, **k):
+                        return native.distance(list(x), list(y), dtwh.pyx_settings(k), ndim=1)
+
+                    @staticmethod
+                    def distance_ndim(x, y, **k):
+                        return native.distance([list(v_) for v_ in x], [list(v_) for v_ in y], dtwh.pyx_settings(k), ndim=ndim)
+                kw = {'inner_dist': innername}
+                if ndim > 1:
+                    kw['use_ndim'] = True
+                saved = dtw.dtw_cc
+                dtw.dtw_cc = NativeCC
+                try:
+                    v = dtw.distance(a1, a2, only_ub=True, use_c=True, **kw)
+                finally:
+                    dtw.dtw_cc = saved
             else:
                 v = native.distance(s1, s2, {'only_ub': True, 'inner_dist': 0 if inner == 'sq' else 1}, ndim=ndim)
             return {'reproduced': not spec.close(v, e), 'observed': {'only_ub': v, 'ed': e}, 'expected': 'equal'}
